@@ -57,6 +57,13 @@ def anchors(a: Anchors):
             raise Untranslatable("tilt model selection chain not recognised")
         return f"Definition legacy_tilt_range_honoured : bool := {'true' if legacy else 'false'}."
     a.raw("legacy_tilt_range_honoured", AB, "TomographyInput.__init__", "tilt / tilt_range selection chain", tilt_chain)
+    TC = "acryo/tilt/core.py"
+    a.fact("factories_as_modelled", TC, "", "single_axis: None -> NoWedge, 'y' -> SingleAxisY, 'x' -> SingleAxisX (for every range); dual_axis: union of Y and X",
+           lambda tree: (lambda t: "deftilt_range" not in t and
+                         "iftilt_rangeisNone:returnNoWedge()ifaxis=='y':returnSingleAxisY(tilt_range)elifaxis=='x':returnSingleAxisX(tilt_range)else:raiseValueError(" in t
+                         and t.count("returnNoWedge()") == 2
+                         and "returnUnionAxes([SingleAxisY(tilt_range_y),SingleAxisX(tilt_range_x)])" in t)(
+               norm("".join(ast.unparse(n) for n in tree.body if isinstance(n, ast.FunctionDef) and not any("overload" in ast.unparse(d) for d in n.decorator_list)))))
     a.fact("union_is_maximum", "acryo/tilt/_base.py", "UnionAxes.create_mask", "reduce(np.maximum, masks)",
            lambda fn: "returnreduce(np.maximum,(w.create_mask(rotator,shape)forwinself._wedges))" in norm(ast.unparse(fn)))
     a.fact("nowedge_is_ones", "acryo/tilt/_base.py", "NoWedge.create_mask", "np.ones(shape)",
@@ -139,6 +146,10 @@ def oracle_misc(ck, rng):
         shape = tuple(int(x) for x in rng.integers(3, 10, size=3))
         rot = Rotation.random(random_state=int(rng.integers(0, 2**31)))
         tr = (float(rng.uniform(-85, -5)), float(rng.uniform(5, 85)))
+        if i % 5 == 0:
+            tr = (-90.0, tr[1])            # ranges that reach the vertical on one side still have a wedge
+        elif i % 5 == 1:
+            tr = (tr[0], 90.0)
         ax = "xy"[i % 2]
         m = np.asarray(single_axis(tr, ax).create_mask(rot, shape)) > 0
         # independent float reference from the property text
